@@ -18,7 +18,12 @@
 EXTENDS Naturals, FiniteSets, Sequences, TLC
 
 CONSTANTS Regs,        \* set of admitted registrations: [id, fam, phantom, registrant, client, proto, port]
-          TU, TA, MaxT, ClearFirst
+          TU, TA, MaxT, ClearFirst,
+          TickSteps,   \* durations by which time may pass in one step (besides the unit Tick)
+          DupMode      \* "ignore": a duplicate delivery of a tracked registration changes nothing (the station sends one message per
+                       \*           registration, so its own clock must keep running from the first delivery);
+                       \* "restart": it restarts the station's expiry clock and resets it to unused - without any message to the
+                       \*           detector (a broken instance: must violate DetectorOutlivesStation)
 
 None == [none |-> TRUE]
 
@@ -75,6 +80,11 @@ Activate(r) == /\ ~cleared /\ st[r] # None
                /\ sent' = Msg(r, "Update", TA) /\ det' = Handle(det, sent')
                /\ UNCHANGED <<now, cleared>>
                /\ obs' = [a |-> "Publish", id |-> r.id, msg |-> sent']
+\* the same registration message delivered again while the registration is tracked (a retry through another registrar, a delayed copy)
+Duplicate(r) == /\ ~cleared /\ st[r] # None
+                /\ st' = IF DupMode = "restart" THEN [st EXCEPT ![r] = [t0 |-> now, used |-> FALSE]] ELSE st
+                /\ UNCHANGED <<now, det, sent, cleared>>
+                /\ obs' = [a |-> "Dup", id |-> r.id]
 StationExpiry(s) == s.t0 + (IF s.used THEN TA ELSE TU)
 Tick == /\ now < MaxT /\ now' = now + 1
         /\ st' = [r \in Regs |-> IF st[r] # None /\ StationExpiry(st[r]) < now' THEN None ELSE st[r]]   \* station sweep
@@ -83,11 +93,16 @@ Tick == /\ now < MaxT /\ now' = now + 1
         \* detector's expiry lies after the station's: the detector keeps a session through the tick its expiry names.
         /\ det' = {s \in det : s.exp >= now'}
         /\ UNCHANGED <<sent, cleared>> /\ obs' = [a |-> "Tick"]
+\* time passes by d at once: the station's sweep and the detector's drop_stale_sessions run at the new time
+TickBy(d) == /\ d \in TickSteps /\ now + d <= MaxT /\ now' = now + d
+             /\ st' = [r \in Regs |-> IF st[r] # None /\ StationExpiry(st[r]) < now' THEN None ELSE st[r]]
+             /\ det' = {s \in det : s.exp >= now'}
+             /\ UNCHANGED <<sent, cleared>> /\ obs' = [a |-> "Tick", d |-> d]
 Shutdown == /\ ~cleared /\ cleared' = TRUE
             /\ sent' = ClearMsg /\ det' = Handle(det, sent')
             /\ st' = [r \in Regs |-> None] /\ UNCHANGED now
             /\ obs' = [a |-> "Publish", id |-> "clear", msg |-> sent']
-Next == (\E r \in Regs : Validate(r) \/ Activate(r)) \/ Tick \/ Shutdown
+Next == (\E r \in Regs : Validate(r) \/ Activate(r) \/ Duplicate(r)) \/ Tick \/ (\E d \in TickSteps : TickBy(d)) \/ Shutdown
 Spec == Init /\ [][Next]_vars
 
 \* ------------------------------ properties ------------------------------
